@@ -49,13 +49,14 @@ pub fn step<T, N: ArrayLength, const R: usize>() {
     }
     let (mut mf, mut mb) = (f, n - b);
     let len = mb - mf;
-    let op = any_upto(11);
+    let op = any_upto(12);
     let arg = any_usize(); // unconstrained: every skip count, including usize::MAX
     kani_cover!(f + b == n, "exhausted position reached");
     kani_cover!(n == 0 || (f > 0 && b > 0) || n < 2, "interior position reached");
     kani_cover!(op == 2 && arg < len || n == 0, "nth inside the remaining range");
     kani_cover!(op == 2 && arg > len + 1, "nth beyond the remaining range");
     kani_cover!(op == 11);
+    kani_cover!(op == 12);
     match op {
         0 => {
             let r = it.next();
@@ -179,6 +180,21 @@ pub fn step<T, N: ArrayLength, const R: usize>() {
             let (lo, hi) = it.size_hint();
             assert!(l1 == len && lo == len && hi == Some(len));
             check_state(&mut it, mf, mb);
+        }
+        12 => {
+            // clone_from (the `&mut` receiver form of cloning; the trait default is `*self = source.clone()`): afterwards the receiver
+            // yields exactly what the source still yields, whatever position the receiver was at, and the source is untouched
+            let mut src = ids::<N>().into_iter();
+            let (f2, b2) = (any_upto(n), any_upto(n));
+            assume(f2 + b2 <= n);
+            let mut k = 0;
+            while k < f2 { let _ = src.next(); k += 1; }
+            k = 0;
+            while k < b2 { let _ = src.next_back(); k += 1; }
+            kani_cover!(n < 2 || (f > 0 && len > 0 && (n - b2 - f2) > len), "receiver with a consumed front, source longer than the receiver");
+            it.clone_from(&src);
+            check_state(&mut src, f2, n - b2);
+            check_state(&mut it, f2, n - b2);
         }
         _ => {
             // two steps from the exhausted side: next after next_back exhaustion etc.
